@@ -16,7 +16,8 @@ from .facts import FactBase
 VERIF = os.path.dirname(os.path.dirname(os.path.abspath(__file__)))
 TOOL_SRC = os.path.join(VERIF, 'tools', 'osmfacts.cpp')
 TOOL_BIN = os.path.join(VERIF, 'bin', 'osmfacts')
-CACHE = os.path.join(VERIF, '.cache')
+CACHE = os.environ.get('VERIF_CACHE', os.path.join(VERIF, '.cache'))
+EVIDENCE_DIR = os.environ.get('VERIF_EVIDENCE_DIR', os.path.join(VERIF, 'evidence'))
 RESOURCE_DIR = '/usr/lib/llvm-14/lib/clang/14.0.6'
 DEFAULT_DEFS = ['-DOSMIUM_WITH_LZ4', '-D_FILE_OFFSET_BITS=64', '-D_LARGEFILE_SOURCE']
 
@@ -97,8 +98,13 @@ def _prune_cache(keep):
         return
     ents = [e for e in ents if os.path.basename(e) != keep]
     ents.sort(key=os.path.getmtime, reverse=True)
-    for e in ents[8:]:
-        shutil.rmtree(e, ignore_errors=True)
+    now = time.time()
+    for e in ents[6:]:
+        try:
+            if now - os.path.getmtime(e) > 1800:  # never remove a directory a concurrent run may be using
+                shutil.rmtree(e, ignore_errors=True)
+        except OSError:
+            pass
 
 
 def extract(repo, unit_path, config, roots, thash, defs):
@@ -347,14 +353,14 @@ def run_check(prop, tier, repo, seed=0, replay=None):
         code = 2
         for m in R.broken_msgs:
             lines.append('ANALYSIS-BROKEN: property=%s %s' % (prop, m))
-    os.makedirs(os.path.join(VERIF, 'evidence', 'replay'), exist_ok=True)
+    os.makedirs(os.path.join(EVIDENCE_DIR, 'replay'), exist_ok=True)
     if violations and code == 0:
         code = 1
     for i in violations:
         lines.append('%s: [%s/%s] %s: %s' % (i.site, prop, i.rule, i.key, i.msg))
         if code == 1:
             hid = hashlib.sha256((i.rule + '|' + i.key).encode()).hexdigest()[:10]
-            rp = os.path.join(VERIF, 'evidence', 'replay', '%s-%s-%s.json' % (prop, i.rule.replace('/', '_'), hid))
+            rp = os.path.join(EVIDENCE_DIR, 'replay', '%s-%s-%s.json' % (prop, i.rule.replace('/', '_'), hid))
             with open(rp, 'w') as f:
                 json.dump({'property': prop, 'rule': i.rule, 'key': i.key, 'site': i.site, 'msg': i.msg, 'detail': i.detail,
                            'repo': ctx.repo, 'replay_cmd': './check %s --replay %s' % (prop, rp)}, f, indent=1, default=str)
@@ -408,7 +414,7 @@ def run_check(prop, tier, repo, seed=0, replay=None):
         'wall_s': round(time.time() - t0, 2),
         'violations': len(violations),
     }
-    with open(os.path.join(VERIF, 'evidence', prop + '.json'), 'w') as f:
+    with open(os.path.join(EVIDENCE_DIR, prop + '.json'), 'w') as f:
         json.dump(ev, f, indent=1, default=str)
     summary = '%s %s: %d instances over %d rules, %d evaluations, %d violations, %d known findings, %.1fs -> exit %d' % (
         prop, tier, len(insts), len(by_rule), R.evaluations, len(violations), len(known_hit), time.time() - t0, code)
